@@ -345,6 +345,24 @@ def serde_stream(tier, rng, count):
             ops += ["SER 0"]
         yield case(f"sd{n}", cfg(K=K, H=rng.choice(HASHERS), V=rng.choice(ROUTES)), ops)
 
+def serde_big(tier, rng):
+    """documents large enough to make the deserialiser's own tables grow several times.  Monitor-only (the model
+    runner is cubic on documents whose strings all collide): the generator states the expected answers itself --
+    string i of a duplicate-free list has key i."""
+    n = 7600 if tier == "quick" else 30000
+    strs = [b"%05x" % i for i in range(n)]
+    doc = "L:" + ",".join(hx(s) for s in strs)
+    idx = (0, 1, 100, 4096, 7168, n - 1)
+    probes = [f"EXP K{i} G 0 {hx(strs[i])}" for i in idx] + [f"EXP S:{hx(strs[i])} TR 0 {i}" for i in idx]
+    yield case("MO-sb0", cfg(K="spur", H="fnv"), [f"EXP NEW0 DE rodeo {doc}", f"EXP #{n} LEN 0"] + probes +
+               [f"EXP K3 I 0 {hx(strs[3])}", f"EXP K{n} I 0 {hx(b'fresh')}", f"EXP #{n + 1} LEN 0"])
+    yield case("MO-sb1", cfg(K="spur", H="rs"), [f"EXP NEW0 DE reader {doc}", f"EXP #{n} LEN 0"] + probes)
+    yield case("MO-sb2", cfg(K="spur", H="len"), [f"EXP DE:err DE rodeo {doc},{hx(strs[5])}"])     # a repeat at the very end
+    yield case("MO-sb3", cfg(K="large", H="low3"), [f"EXP NEW0 DE resolver {doc}", f"EXP #{n} LEN 0", f"EXP S:{hx(strs[7168])} TR 0 7168"])
+    m = "M:" + ",".join(f"{hx(s)}={i + 1}" for i, s in enumerate(strs[:3000]))
+    yield case("MO-sb4", cfg(K="spur", H="fnv"), [f"EXP NEW0 DE threaded {m}", "EXP #3000 LEN 0", f"EXP K0 G 0 {hx(strs[0])}", f"EXP K2999 G 0 {hx(strs[2999])}",
+                                                 f"EXP K3000 I 0 {hx(b'fresh')}", "EXP U RD 0", f"EXP K17 G 0 {hx(strs[17])}"])
+
 def serde_roundtrip(tier, rng, count):
     """history -> SER -> DE of the same document -> continue on both, compare"""
     for n in range(count):
@@ -427,6 +445,28 @@ def eq_static_slices(rng, count):
                 ops.append(f"{conv} {which}")
         ops += ["EQ 0 1", "EQ 1 0", "EQ 0 0", "IT 0 nnnn", "IT 1 nnnn"]
         yield case(f"es{n}", cfg(K="spur", H=rng.choice(HASHERS), P=pool), ops)
+
+def eq_after_memfail(rng, count):
+    """equal content, but one side saw interns refused for lack of memory (and other no-op attempts) on the way"""
+    for n in range(count):
+        strs = list(dict.fromkeys(sized(j, rng.choice([1, 2, 3, 5])) for j in range(rng.randrange(1, 6))))
+        kind = rng.choice(["NR", "NR", "NT"])
+        ops = [f"{kind} 4 {rng.choice([8, 12, 20])} 0 {n}", f"{rng.choice(['NR', 'NT'])} 64 max 0 {n + 1}"]
+        kept = []
+        for s in strs:
+            ops.append(f"I 0 {hx(s)}")
+            ops.append(f"I 0 {hx(sized(77, 40))}")            # refused: larger than the limit allows
+            if rng.random() < 0.5:
+                ops.append(f"IP 0 {hx(sized(78, 33))}")       # refused, panicking variant
+        ops += ["IT 0 nnnnnnn", "LIM 0 max"]
+        # the peer gets exactly what slot 0 really holds: replay it from slot 0's listing is not possible here, so
+        # intern the same strings in the same order and let the model decide which of them slot 0 accepted
+        for s in strs:
+            ops.append(f"I 1 {hx(s)}")
+        ops += ["EQ 0 1", "EQ 1 0", "CL 0" if kind == "NR" else "SER 0", "EQ 0 0"]
+        if kind == "NR":
+            ops += ["EQ 2 0", "EQ 0 2", "CF 1 0" if ops[1].startswith("NR") else "LEN 1", "EQ 1 0"]
+        yield case(f"em{n}", cfg(K="spur", H=rng.choice(HASHERS)), ops)
 
 def eq_after_exhaustion(rng):
     """a concurrent interner whose key counter overshot (failed interns) must still compare by content"""
